@@ -158,6 +158,10 @@ def build_run(rng, d, force=None):
     if len(ids) >= 3 and rng.random() < 0.25:
         allzero = {rng.choice(ids)}
     nobs = rng.randint(1, 3)
+    # long runs: more than 900 records, so that NONMEM repeats the table title and / or the label line every 900 records
+    long_run = force.get("long_run", rng.random() < 0.08)
+    if long_run:
+        nobs = rng.randint(910 // len(ids) + 1, 2100 // len(ids))
     nrows = len(ids) * nobs
     idcol = [float(i) for i in ids for _ in range(nobs)]
     timecol = [float(k) for _ in ids for k in range(nobs)]
@@ -224,6 +228,7 @@ def build_run(rng, d, force=None):
         text, rows = W.gen_table_file(
             rng, profile, tb["columns"], nrows, number=len(tab_truth) + 1,
             with_title=hm not in ("NOTITLE", "NOHEADER"), with_labels=hm != "NOHEADER",
+            seg=900 if hm in ("", "NOTITLE") else None, repeat_title=hm == "",
             fixed_cols={"ID": idcol, "TIME": timecol}, zero_rows=zero_rows)
         write(d / tb["file"], text)
         tab_truth.append({"file": tb["file"], "columns": tb["columns"], "rows": rows, "header_mode": hm})
@@ -431,10 +436,16 @@ def check_table_level(c, d, run):
             c.violate(None, f"NONMEMTableFile({tb['file']}) raised {type(e).__name__}: {e}")
             continue
         c.hit("table_file_values")
-        if len(t) != 1:
-            c.violate(None, f"$TABLE file {tb['file']}: {len(t)} tables parsed, 1 written")
+        nseg = -(-len(tb["rows"]) // 900) if hm == "" else 1  # title repeated every 900 records: one table per segment
+        if len(t) != nseg:
+            c.violate(None, f"$TABLE file {tb['file']}: {len(t)} tables parsed, {nseg} written ({len(tb['rows'])} records)")
             continue
-        compare_frame(c, f"$TABLE file {tb['file']}", t[0].data_frame, tb["columns"], tb["rows"])
+        if nseg > 1:
+            c.hit("table_file_900_segments")
+        for k in range(nseg):
+            if not compare_frame(c, f"$TABLE file {tb['file']}" + (f" segment {k}" if nseg > 1 else ""), t[k].data_frame,
+                                 tb["columns"], tb["rows"][900 * k:900 * (k + 1)] if nseg > 1 else tb["rows"]):
+                break
 
 
 def compare_frame(c, what, df, columns, rows, key=None):
